@@ -38,6 +38,26 @@ AddNL(s) == IF Len(s) > 0 /\ s[1] \in LineMarkers THEN <<"NL">> \o s ELSE s
 
 DropOneNL(s) == IF Len(s) > 0 /\ s[Len(s)] = "NL" THEN SubSeq(s, 1, Len(s) - 1) ELSE s
 
+(* ---------------- template names ---------------- *)
+\* A call may write the name of a template in several spellings (page-store rules,
+\* PageStore.tla): with the namespace prefix, with a lower-case first letter, with an
+\* underscore for a blank.  Alias maps such a written name to the stored name; names not
+\* in the table denote themselves.  Redirect maps a redirect page to its target (one hop
+\* is followed; a redirect to a redirect is not).
+\* the redirect pages R1 -> T1, R2 -> R1, r1 (lower-case alias of R1) exist in the page store
+\* exactly when the library contains the marker entry "RDR"
+RedirectsInstalled(lib) == "RDR" \in DOMAIN lib
+Alias == ("Template:T1" :> "T1") @@ ("t1" :> "T1") @@ ("template:T1" :> "T1") @@ ("T:T1" :> "T1")
+         @@ ("Template:T2" :> "T2") @@ ("t2" :> "T2")
+Redirect == ("R1" :> "T1") @@ ("R2" :> "R1") @@ ("r1" :> "T1")
+Stored(n) == IF n \in DOMAIN Alias THEN Alias[n] ELSE n
+\* the library page whose body is transcluded, or "" when the call goes nowhere
+Target(n, lib) ==
+  LET s == Stored(n) IN
+  IF s \in DOMAIN lib THEN s
+  ELSE IF s \in DOMAIN Redirect /\ Redirect[s] \in DOMAIN lib /\ RedirectsInstalled(lib) THEN Redirect[s]
+  ELSE ""
+
 (* ---------------- frames ---------------- *)
 \* a frame binds parameter keys (trimmed texts) to values; `top` = the page itself
 TopFrame == [top |-> TRUE, b |-> <<>>]
@@ -134,10 +154,10 @@ EvalItem(it, f, lib, Dev) ==
          ELSE IF it.hasDef THEN Eval(it.def, f, lib, Dev)
          ELSE <<"{{{">> \o key \o <<"}}}">>
     [] it.k = "c" ->
-         IF it.name \notin DOMAIN lib
+         IF Target(it.name, lib) = ""
          THEN <<"[[:Template:", it.name, "]]">>
          ELSE LET nf == Frame(Bind(it.args, 1, 1, f, lib, Dev))
-              IN AddNL(Eval(IncludablePart(lib[it.name]), nf, lib, Dev))
+              IN AddNL(Eval(IncludablePart(lib[Target(it.name, lib)]), nf, lib, Dev))
     [] it.k = "if" ->
          AddNL(IF Trim(Eval(it.c, f, lib, Dev)) # <<>>
                THEN Trim(Eval(it.y, f, lib, Dev)) ELSE Trim(Eval(it.n, f, lib, Dev)))
